@@ -115,8 +115,14 @@ func (m *Model) Rearrange(perm []int) {
 			}
 		}
 	})
+	// Note: named sets can be reachable from several top-level sets, each node must be updated once.
+	seen := make(map[*TokenSet]bool)
 	for _, set := range m.Sets {
 		set.ForEach(func(ts *TokenSet) {
+			if seen[ts] {
+				return
+			}
+			seen[ts] = true
 			if nt := ts.Symbol - terms; nt >= 0 {
 				ts.Symbol = terms + perm[nt]
 			}
